@@ -18,6 +18,7 @@ PID = "C05"
 FUNCTIONS = ["UnitDatabase._DoOperationWithSameQuantity (composing-units comparison)", "UnitDatabase.GetInfo/CheckQuantityTypeUnit/CheckCategoryUnit",
              "UnitDatabase.Convert/_ConvertWithExp", "Scalar.__lt__ + total_ordering", "FractionScalar.__lt__", "Quantity.__init__ (unit vs category)",
              "ObtainQuantity", "Array._DoOperation/GetValues", "AbstractValueWithQuantityObject.CreateCopy"]
+EXTRA_KINDS = ["derived_construct", "derived_construct_rev", "lt_same_unit_text"]
 KINDS = ["add", "sub", "radd", "lt", "gt", "le", "GetValue", "CreateCopy", "db.Convert", "ObtainQuantity", "construct", "array_add", "array_GetValues",
          "array_construct", "fraction_lt", "fraction_GetValue", "fraction_construct", "fixed_construct"]
 BOUNDS = {
@@ -72,6 +73,14 @@ def items(tier, seed):
         if model_dims(A) == model_dims(B) or n_leaves(A) + n_leaves(B) > 5:
             continue
         out.append({"k": rng.choice(["d_add", "d_sub", "d_lt", "d_array_add"]), "A": A, "B": B})
+    for i, (a, ua, b, ub) in enumerate(pairs[:60 if tier == "quick" else 2000]):
+        out.append({"k": EXTRA_KINDS[i % 2], "qa": a, "ua": ua, "qb": b, "ub": ub})
+    for sq, reg, qreg in (("m/s", "m/s2", "acceleration linear"), ("kg/m", "kg/m2", "surface density"), ("m", "m2", "area"), ("ft", "ft2", "area")):
+        for side in ("left", "right"):
+            for cmp_ in ("lt", "gt", "le", "ge"):
+                out.append({"k": "lt_same_unit_text", "sq": sq, "reg": reg, "side": side, "cmp": cmp_})
+    for c in [c for c in out if c["k"].startswith("d_")][::3]:
+        c["np"] = True
     for k in ("exempt_empty", "exempt_number"):
         for u in ("m", "degC", "kg/m3"):
             out.append({"k": k, "ua": u})
@@ -134,25 +143,50 @@ def run(cfg, V):
                 r1, r2 = s + V["y"], V["y"] - s
             return {"exempt": True, "vals": (r1.GetValue(), r2.GetValue()), "units": (r1.GetUnit(), r2.GetUnit())}
         reg0 = snap_registry(db)
-        if k.startswith("d_"):
+        if k == "lt_same_unit_text":
+            # a derived scalar whose unit TEXT coincides with a registered unit of another dimension: (m/s)*(m/s) shows 'm/s2'
+            x, y = V["x"], V["y"]
+            a = Scalar(x, cfg["sq"]) * Scalar(1.0, cfg["sq"])
+            b = Scalar(y, cfg["reg"])
+            if cfg["side"] == "right":
+                a, b = b, a
+            import operator
+
+            fn = lambda: getattr(operator, cfg["cmp"])(a, b)
+            operands = [a, b]
+        elif k.startswith("d_"):
             ctr = [0]
             a = build(cfg["A"], V, ctr)
             b = build(cfg["B"], V, ctr)
-            if k == "d_array_add":
-                a = Array.CreateWithQuantity(a.GetQuantity(), [a.GetValue()])
-                b = Array.CreateWithQuantity(b.GetQuantity(), [b.GetValue()])
+            if k == "d_array_add" or cfg.get("np"):
+                from symx.shims import SymArray
+                import numpy
+
+                mk = (lambda v: SymArray([v]) if core.is_sym(v) else numpy.array([v], dtype=float)) if cfg.get("np") else (lambda v: [v])
+                a = Array.CreateWithQuantity(a.GetQuantity(), mk(a.GetValue()))
+                b = Array.CreateWithQuantity(b.GetQuantity(), mk(b.GetValue()))
             ops = {"d_add": lambda: a + b, "d_sub": lambda: a - b, "d_lt": lambda: a < b, "d_array_add": lambda: a + b}
             fn = ops[k]
             operands = [a, b]
         else:
             qa, ua, qb, ub = cfg["qa"], cfg["ua"], cfg["qb"], cfg["ub"]
             x, y = V["x"], V["y"]
+            ua = db.GetInfo(qa, ua).unit
             a = Scalar(x, ua, qa)
             operands = [a]
             if k in ("add", "sub", "radd", "lt", "gt", "le"):
                 b = Scalar(y, db.GetInfo(qb, ub).unit, qb)
                 operands.append(b)
                 fn = {"add": lambda: a + b, "sub": lambda: a - b, "radd": lambda: b + a, "lt": lambda: a < b, "gt": lambda: a > b, "le": lambda: a <= b}[k]
+            elif k in ("derived_construct", "derived_construct_rev"):
+                from collections import OrderedDict
+
+                if k == "derived_construct":
+                    od = OrderedDict([(qa, [ua, 2]), (qb, [ua, -1])])  # ua is valid for the first category and foreign to the second
+                else:
+                    ubf = db.GetInfo(qb, ub).unit
+                    od = OrderedDict([(qb, [ubf, 1]), (qa, [ubf, 1])])  # ub is valid first, then used under a foreign category
+                fn = lambda: Quantity.CreateDerived(OrderedDict((c, list(ue)) for c, ue in od.items()))
             elif k == "GetValue":
                 fn = lambda: a.GetValue(ub)
             elif k == "CreateCopy":
@@ -226,6 +260,8 @@ def props(cfg, T, obs):
 
 
 def finding_key(cfg, name):
+    if cfg["k"] == "lt_same_unit_text":
+        return "%s (%s)*(%s) vs %s on the %s :: %s" % (cfg["cmp"], cfg["sq"], cfg["sq"], cfg["reg"], cfg["side"], name)
     if cfg["k"].startswith("d_"):
-        return "%s %s %s :: %s" % (cfg["k"], spec_str(cfg["A"]), spec_str(cfg["B"]), name)
+        return "%s%s %s %s :: %s" % (cfg["k"], " numpy" if cfg.get("np") else "", spec_str(cfg["A"]), spec_str(cfg["B"]), name)
     return "%s %s[%s] vs %s[%s] :: %s" % (cfg["k"], cfg.get("ua"), cfg.get("qa"), cfg.get("ub"), cfg.get("qb"), name)
